@@ -173,9 +173,9 @@ func runC04(f *hx.Flags, w *world) int {
 	return 0
 }
 
-const ruleC05 = "enum definition files as in C04, with and without parsable trait columns (untyped/named string, signed and unsigned integers of 8-64 bits, time.Duration) and duplicated values, generated under the option combinations of -json/-text/-caseInsensitive/-parsableByTraits that include the codec under test (-yaml stays on: without it the generated file lacks IsEnum, see C13); shaped files in every batch: under EACH of the 8 option sets a type with parsable untyped/named string traits, values declared without trait columns and an empty-string constant; an enum whose value names are YAML/JSON-significant identifiers (Null null NULL True False Yes No On Off Y N ...). one case = one type x one codec: the encoding of every defined value read back as a plain string, decode(encode v) standalone and as a struct field into a target holding another value, and decoding of scalar documents: the empty string, case variants of string trait constants, names, near-miss names, empty string, random words, numbers (defined values, trait constants +-1 and +-2^8/2^16, 64-bit boundaries), non-integer scalars, constants of parsable and of non-parsable traits. non-trivial = the type has a parsable trait or a duplicated value; distinct by request lines"
+const ruleC05 = "enum definition files as in C04, with and without parsable trait columns (untyped/named string, signed and unsigned integers of 8-64 bits, time.Duration) and duplicated values, generated under the option combinations of -json/-text/-caseInsensitive/-parsableByTraits that include the codec under test (-yaml stays on: without it the generated file lacks IsEnum, see C13); shaped files in every batch: under EACH of the 8 option sets a type with parsable untyped/named string traits, values declared without trait columns and an empty-string constant; an enum whose value names are YAML/JSON-significant identifiers (Null null NULL True False Yes No On Off Y N ...); a parsable trait whose TYPE brings unmarshalers of its own - another enum generated by an earlier invocation under every subset of -json/-yaml/-text (UnmarshalJSON only, UnmarshalYAML only, UnmarshalText only, any pair, all, none) or a hand-written integer type with exactly one of the three - as the only parsable member of its integer block (alone, next to a string trait, next to an unparsable integer trait, next to an integer trait of the other signedness) and next to another parsable integer trait of the same block, the outer enum under every codec subset incl. -yaml=false, with the inner type's names, aliases, numerals and near misses as documents through every decoder the outer enum has. one case = one type x one codec: the encoding of every defined value read back as a plain string, decode(encode v) standalone and as a struct field into a target holding another value, and decoding of scalar documents: the empty string, case variants of string trait constants, names, near-miss names, empty string, random words, numbers (defined values, trait constants +-1 and +-2^8/2^16, 64-bit boundaries), non-integer scalars, constants of parsable and of non-parsable traits. non-trivial = the type has a parsable trait or a duplicated value; distinct by request lines"
 
-const ruleC12 = "enum definition files with 1-5 trait columns per type (untyped and named string, untyped int, named int8, int16, time.Duration through a renamed import, uint8, uint64, named uint16, bool, rune), exported and _-prefixed trait names, own per-line trait constant names, random parsable subsets with pairwise distinct constants, duplicated values (deprecated alias with / without trait columns, second live name); shaped files in every batch: all 16 deprecation patterns of 3-4 names of one value whose lines carry DIFFERENT trait constants, several parsable traits of distinct named types sharing an underlying type (string, int8, uint16 families), values without trait columns; per type: every accessor on all 256 values of 8-bit kinds (boundary, defined, defined+-1, random otherwise), Parse<T> of every typed trait constant and its successor, and per parsable column the decoding of a JSON/YAML (text for string kinds) scalar holding each constant of a primary definition, compared with what the property demands (the owning value). every case is non-trivial; distinct by request lines"
+const ruleC12 = "enum definition files with 1-5 trait columns per type (untyped and named string, untyped int, named int8, int16, time.Duration through a renamed import, uint8, uint64, named uint16, bool, rune), exported and _-prefixed trait names, own per-line trait constant names, random parsable subsets with pairwise distinct constants, duplicated values (deprecated alias with / without trait columns, second live name); shaped files in every batch: all 16 deprecation patterns of 3-4 names of one value whose lines carry DIFFERENT trait constants, several parsable traits of distinct named types sharing an underlying type (string, int8, uint16 families), values without trait columns, trait types with unmarshalers of their own (an enum generated earlier under a subset of -json/-yaml/-text, a hand-written integer type with one unmarshaler; per codec the rendered constant is the inner NAME where the type has that codec's unmarshaler and the NUMERAL where it has not); per type: every accessor on all 256 values of 8-bit kinds (boundary, defined, defined+-1, random otherwise), Parse<T> of every typed trait constant and its successor, and per parsable column the decoding of a JSON/YAML (text for string kinds) scalar holding each constant of a primary definition, compared with what the property demands (the owning value). every case is non-trivial; distinct by request lines"
 
 func keyOfGeneric(prop string) func(d *hx.Disagreement) string {
 	return func(d *hx.Disagreement) string {
@@ -247,6 +247,13 @@ func runC05(f *hx.Flags, w *world) int {
 		// itself: native block), next to integer and string traits
 		defs = append(defs, g.shapedDef(traitShape{opts: optSets[(3*b+1)%len(optSets)], fixedCols: []string{"int", "Str"}, allParsable: true,
 			selfCol: true, nTypes: 1, nConsts: 4 + b, rowless: b%2 == 1}))
+		// trait types with unmarshalers of their own, per codec: inner enums generated under every
+		// subset of -json / -yaml / -text, hand-written types with one unmarshaler, as the only member of
+		// their integer block and next to another one, under the outer enum's codec subsets
+		defs = append(defs, g.selfCodecDefs(b, r.N(nBatches))...)
+		// one constant value in several parsable trait columns of a line: different types (every one a
+		// key of its own in the Parse switch), the same type (listed once)
+		defs = append(defs, g.sameValueDefs(b, optSets)...)
 		// 64-bit integer traits (untyped int, uint64, the named int64 type time.Duration) with constants
 		// of magnitude >= 2^53 that float64 holds exactly: the constants must decode, their neighbours
 		// +-1, +-2, ... and the float spellings <c>.0 / <c>e0 must be rejected
@@ -321,6 +328,12 @@ func runC12(f *hx.Flags, w *world) int {
 		defs = append(defs,
 			g.shapedDef(traitShape{opts: opt(5), fixedCols: []string{"int", "string"}, allParsable: true, selfCol: true, nTypes: 1, nConsts: 4, dups: b%2 == 1}),
 			g.shapedDef(traitShape{opts: opt(6), fixedCols: []string{"uint8"}, allParsable: b%2 == 0, selfCol: true, nTypes: 2, sharedNames: true, nConsts: 3}))
+		// (e') the inner type under every subset of its own codec switches / hand-written with one
+		// unmarshaler, alone in its integer block and next to another integer trait
+		defs = append(defs, g.selfCodecDefs(b, r.N(nBatches))...)
+		// (e'') one constant value in several parsable trait columns of a line, of different types and
+		// of the same type
+		defs = append(defs, g.sameValueDefs(b, []string{"-", "c", "-"})...)
 		// (f) ONE invocation for several types that share their parsable trait names
 		defs = append(defs, g.shapedDef(traitShape{opts: opt(7), fixedCols: []string{"int", "Str", "uint8"}, allParsable: true, nTypes: 2, sharedNames: true, nConsts: 3 + b}))
 		// (g) parsable traits of different types with the same literal text on different members
